@@ -129,3 +129,35 @@ fn c10_gridshift_inv_geoid() {
 fn c10_gridshift_inv_datum() {
     gridshift_inv_case(2);
 }
+
+// Inverse with a grid that answers arbitrarily per lookup (S-GRID-SEQ): the iteration may start
+// inside the grid and wander off, converge late, or never converge.
+// @harness c10_gridshift_inv_wandering prop=C10 tier=quick cap=1500 stubs="M-BTREE, S-GRID-SEQ (arbitrary answer per lookup), S-ACC(boolean), S-UF-SMALL(f64::hypot)" bound="1 two-band grid answering arbitrarily at each of up to 24 lookups (value in D-SMALL), 1 tuple in D-SMALL, null flag symbolic, iteration unwound to its limit 10: count <= 1; uncounted => all NaN; counted => not NaN"
+#[kani::proof]
+#[kani::stub(ParsedParameters::boolean, acc_boolean)]
+#[kani::stub(f64::hypot, uf_binary_nonneg)]
+#[kani::unwind(26)]
+fn c10_gridshift_inv_wandering() {
+    let hit: [bool; 24] = nd();
+    let g = SeqGrid { nbands: 2, hit, value: Coor4D([small_f(), small_f(), 0., 0.]) };
+    let a0: std::sync::Arc<dyn Grid> = std::sync::Arc::new(g);
+    let null: bool = nd();
+    let op = gridshift_op(null, vec![a0]);
+    let ctx = NullCtx;
+    let a = Coor4D([small_f(), small_f(), small_f(), small_f()]);
+    let mut data = [a];
+    unsafe {
+        SEQ_CALLS = 0;
+    }
+    let n = inv(&op, &ctx, &mut data);
+    assert!(n <= 1);
+    if n == 0 {
+        for k in 0..4 {
+            assert!(data[0].0[k].is_nan());
+        }
+    } else {
+        assert!(!data[0].0[0].is_nan() && !data[0].0[1].is_nan() && !data[0].0[2].is_nan());
+    }
+    kani::cover!(n == 1);
+    kani::cover!(n == 0);
+}
